@@ -110,6 +110,14 @@ fn table_scenario() -> Scenario {
 #[kani::unwind(3)]
 #[kani::stub(<Timestamp as core::ops::Add<Duration>>::add, Timestamp::verif_add_model)]
 fn vq_c09_loss_detect_slack_full() {
+    // obligations of the shared body `loss_detect_with_granularity` (listed here for the registry):
+    //   "C09/loss.detect/packet_threshold_is_3"
+    //   "C09/loss.detect/lost_only_if_packet_or_time_threshold_1ms_slack"
+    //   "C09/loss.detect/time_threshold_reached_implies_lost"
+    //   "C09/loss.detect/packet_threshold_reached_implies_lost"
+    //   "C09/loss.detect/lost_iff_rfc_with_granularity"
+    //   "C09/loss.detect/not_lost_yet_carries_time_sent_plus_threshold"
+    //   "C09/loss.detect/not_lost_yet_time_is_in_the_future"
     loss_detect_with_granularity(any_scenario(), true);
 }
 
